@@ -154,6 +154,13 @@ def one_call(v, text, path=None):
     from parso.python.tokenize import tokenize
     g = parso.load_grammar(version=v)
     out = {}
+    if path == '<eval_input>':
+        # the other documented start rule (strict only), on the same shared grammar object as everybody else
+        try:
+            m = g.parse(text, error_recovery=False, start_symbol='eval_input')
+            return {'eval_tree': hash(tuple(tree_sig(m))), 'nodes': len(tree_sig(m))}
+        except Exception as e:
+            return {'eval_exc': type(e).__name__}
     try:
         m = g.parse(text) if path is None else g.parse(text, path=path)
         out['tree'] = hash(tuple(tree_sig(m)))
@@ -189,6 +196,12 @@ def make_batch(rng, files, n, maxlen=10 ** 9, paths=None):
         else:
             t = G.corpus_slice(rng, files, maxlines=40, inject=(0, 1))
         texts.append((rng.choice(harness.VERSIONS), t[:maxlen], rng.choice(paths) if paths and rng.random() < .15 else None))
+        if rng.random() < .12:
+            # a long expression for eval_input (long enough for the threads to overlap inside the parser)
+            k = rng.randint(50, 400)
+            e = rng.choice([' + '.join('a%d' % j for j in range(k)), '[' + ', '.join('f(%d, k=%d)' % (j, j) for j in range(k)) + ']',
+                            ' if c else '.join('x%d' % j for j in range(k // 4 + 2)), '(' * (k // 8) + '1' + ')' * (k // 8), 'lambda: (' + ' , '.join(['y'] * k) + ')'])
+            texts.append((rng.choice(harness.VERSIONS), e, '<eval_input>'))
     return texts
 
 
@@ -324,6 +337,8 @@ def run_shard(spec, ctx):
                 break
             n = rng.choice(spec.get('sizes', [16, 32, 64]))
             texts = make_batch(rng, files, n, spec.get('maxlen', 10 ** 9), cpaths)
+            n = len(texts)
+            ctx.count('eval_input_calls', sum(1 for t in texts if t[2] == '<eval_input>'))
             nthreads = rng.choice(spec.get('threads', [2, 3, 4, 8]))
             before = il.n_switch
             conc = run_batch_threads(texts, nthreads)
@@ -343,7 +358,7 @@ def run_shard(spec, ctx):
                 seq[i] = one_call(*texts[i])
             w = {'texts': texts, 'threads': nthreads, 'cold': b == 0}
             for i in range(n):
-                if texts[i][2] is not None:
+                if texts[i][2] is not None and texts[i][2] != '<eval_input>':
                     # the path of a file that is in the cache (memory and disk) with another content must not change a non-caching parse
                     ctx.count('non_caching_parses_with_a_cached_path')
                     plain = one_call(texts[i][0], texts[i][1])
@@ -407,9 +422,9 @@ def run_shard(spec, ctx):
 
 def replay(w, ctx):
     croot, cpaths = cached_files()
-    texts = [(t[0], t[1], (cpaths[0] if len(t) > 2 and t[2] else None)) for t in w['texts']]
+    texts = [(t[0], t[1], ('<eval_input>' if len(t) > 2 and t[2] == '<eval_input>' else (cpaths[0] if len(t) > 2 and t[2] else None))) for t in w['texts']]
     for v, t, p in texts:
-        if p is not None and _norm(one_call(v, t, p)) != _norm(one_call(v, t)):
+        if p is not None and p != '<eval_input>' and _norm(one_call(v, t, p)) != _norm(one_call(v, t)):
             ctx.violation('path_option_changes_result', 'parse(code, path=<cached file>) differs from parse(code) on replay', w)
             return
     for rep in range(20):
@@ -433,4 +448,4 @@ def shards(tier, seed):
 def floors(tier):
     return {'evaluations': 700, 'batches_with_interleaving': 30, 'thread_switches_inside_parso': 2000, 'fingerprints': 30,
             'fresh_process_replays': 15, 'set:distinct_function_switches': 100,
-            'non_caching_parses_with_a_cached_path': 60}
+            'non_caching_parses_with_a_cached_path': 60, 'eval_input_calls': 40}
